@@ -144,6 +144,12 @@ def field_text(t, f):
         return "%02d" % t.second
     if f == "millisecond":
         return "%03d" % (t.microsecond // 1000)
+    if f == "decisecond":
+        return "%01d" % (t.microsecond // 100000)
+    if f == "centisecond":
+        return "%02d" % (t.microsecond // 10000)
+    if f == "microsecond":
+        return "%06d" % t.microsecond
     raise KeyError(f)
 
 
@@ -171,11 +177,18 @@ def instantiate(toks, s, e, fill, stars=None):
     return "".join(out), caps
 
 
+SUBSEC = {"decisecond": 100000, "centisecond": 10000, "millisecond": 1000, "microsecond": 1}
+ALL_TIME = ["hour", "minute", "second", "decisecond", "centisecond", "millisecond", "microsecond"]
+# FileSet._temporal_resolution: the unit added when a partial end precedes the start
+SUPERIOR_US = {"hour": 86400 * 10**6, "minute": 3600 * 10**6, "second": 60 * 10**6}
+
+
 def trunc(t, F):
+    unit = min([SUBSEC[f] for f in F if f in SUBSEC], default=None)
     return dt.datetime(t.year, t.month, t.day,
                        t.hour if "hour" in F else 0, t.minute if "minute" in F else 0,
                        t.second if "second" in F else 0,
-                       (t.microsecond // 1000) * 1000 if "millisecond" in F else 0)
+                       (t.microsecond // unit) * unit if unit else 0)
 
 
 def has_date(F, t):
@@ -209,9 +222,12 @@ def expected(case):
     # ---- get_filename
     f_fields = {t[1] for t in fmt_toks if t[0] in "TE"}
     f_users = [t[1] for t in fmt_toks if t[0] == "U"]
+    rendered = False
     if (f_fields - FILLABLE) or any(u not in known for u in f_users):
         exp["fmt"] = ("err", "unknownPlaceholder")
-        return exp
+        if not case.get("rendered") or any(u not in known for u in f_users):
+            return exp
+        rendered = True                         # the harness writes the name itself
     eff_fill = {}
     for u in f_users:
         if u in fill:
@@ -221,12 +237,16 @@ def expected(case):
     unfilled = any(t[0] == "S" or (t[0] == "L" and set(t[1]) & SPECIAL) for t in fmt_toks) \
         or any(set(v) & SPECIAL for v in eff_fill.values())
     if unfilled:
-        exp["fmt"] = ("err", "unfilledPlaceholder")
+        if not rendered:
+            exp["fmt"] = ("err", "unfilledPlaceholder")
         return exp
     if s.year < 1000 or e.year < 1000 or s > e:
         return exp                              # outside the stated ranges: no claim
     name, caps = instantiate(fmt_toks, s, e, eff_fill)
-    exp["fmt"] = ("ok", name)
+    if not rendered:
+        exp["fmt"] = ("ok", name)
+    elif sum(f in SUBSEC for f in S) > 1 or sum(f in SUBSEC for f in E) > 1:
+        return exp                              # several sub-second fields are summed by the code: no claim
     if case.get("tpl2"):
         return exp
     # ---- parse / info of the generated name: only for unambiguous templates
@@ -246,18 +266,24 @@ def expected(case):
             if E and not (has_date(E, e) or E <= set(TIME_KINDS)):
                 return exp                      # end names day/month/doy/year only partly: outside the claim
             fn_start = trunc(s, S)
-            St = S & set(TIME_KINDS)
-            Et = E & set(TIME_KINDS)
+            St = S & set(ALL_TIME)
+            Et = E & set(ALL_TIME)
+            coarsest = next((k for k in TIME_KINDS if k in E), None)
             if not E:
                 fn_end = None
             elif has_date(E, e) and Et >= St and e == trunc(e, E):
                 fn_end = trunc(e, E)                                    # spelled out completely
-            elif E <= set(TIME_KINDS) and "hour" in E and e == trunc(e, E | S):
+            elif E <= set(TIME_KINDS) and coarsest in SUPERIOR_US and e == trunc(e, E | S):
+                # fewer fields: the rest comes from the start; moved by the next coarser unit of the
+                # coarsest end field (hour -> 1 d, minute -> 1 h, second -> 1 min) when it precedes the start
                 c = fn_start.replace(**{("microsecond" if k == "millisecond" else k):
                                         ((e.microsecond // 1000) * 1000 if k == "millisecond" else getattr(e, k))
                                         for k in E})
                 if c < fn_start:
-                    c += dt.timedelta(days=1)
+                    try:
+                        c += dt.timedelta(microseconds=SUPERIOR_US[coarsest])
+                    except OverflowError:
+                        return exp
                 fn_end = c
             else:
                 end_known = False                                       # outside the claim
@@ -279,7 +305,7 @@ def expected(case):
         return exp
     if st is None:
         if end_known:
-            exp["info_err"] = "valueError"
+            exp["info_err"] = "any"
         return exp
     exp["start"] = st
     if not end_known:
@@ -289,7 +315,7 @@ def expected(case):
             en = st + dt.timedelta(microseconds=tc) if tc is not None else st
         except OverflowError:
             exp.pop("start")
-            exp["info_err"] = "overflow"
+            exp["info_err"] = "any"
             return exp
     exp["end"] = en
     return exp
@@ -333,11 +359,14 @@ def run_real(case):
     s, e = from_us(case["s"]), from_us(case["e"])
     try:
         kw = {"template": tpl_str(case["tpl2"])} if case.get("tpl2") else {}
-        name = fs.get_filename((s, e), fill=dict(case["fill"]) if case["fill"] is not None else None, **kw)
+        times = s if case.get("single_time") else (s, e)      # a single datetime means a discrete file: end = start
+        name = fs.get_filename(times, fill=dict(case["fill"]) if case["fill"] is not None else None, **kw)
         res["fmt"] = ("ok", name)
     except Exception as ex:
         res["fmt"] = ("err", err_enum(ex))
-    names = ([res["fmt"][1]] if res["fmt"][0] == "ok" and not case.get("tpl2") else []) + list(case.get("names", []))
+    first = [res["fmt"][1]] if res["fmt"][0] == "ok" and not case.get("tpl2") else \
+        [case["rendered"]] if case.get("rendered") and not case.get("tpl2") else []
+    names = first + list(case.get("names", []))
     for n in names:
         r = {"name": n}
         if not case.get("format_only"):
@@ -503,9 +532,12 @@ def gen_case(rng, stream):
     year_kind = rng.choice(["year", "year", "year2"]) if not wild else rng.choice(["year", "year2", "both", "none"])
     date_kind = rng.choice(["md", "md", "doy"]) if not wild else rng.choice(["md", "doy", "m", "d", "none", "mddoy"])
     ntime = rng.choice([0, 0, 1, 2, 3, 3, 4])
+    subsec = rng.choice(["decisecond", "centisecond", "microsecond", "millisecond"]) if (not wild and rng.random() < 0.07) else None
+    if subsec:
+        ntime = 3
     start = {"year": ["year"], "year2": ["year2"], "both": ["year", "year2"], "none": []}[year_kind] + \
             {"md": ["month", "day"], "doy": ["doy"], "m": ["month"], "d": ["day"], "none": [], "mddoy": ["month", "day", "doy"]}[date_kind] + \
-            TIME_KINDS[:ntime]
+            TIME_KINDS[:ntime] + ([subsec] if subsec else [])
     if wild and rng.random() < 0.3:
         start = [f for f in start if rng.random() < 0.8]
         if rng.random() < 0.5:
@@ -513,12 +545,14 @@ def gen_case(rng, stream):
         start = list(dict.fromkeys(start))
     end_kind = rng.choice(["none", "none", "full", "full", "subday", "subday", "partial"]) if not wild else \
         rng.choice(["none", "full", "subday", "partial", "random"])
+    if subsec:
+        end_kind = rng.choice(["none", "full"])
     if end_kind == "none":
         end = []
     elif end_kind == "full":
         ey = rng.choice(["year", "year2"]) if rng.random() < 0.3 else ("year2" if year_kind == "year2" else "year")
         ed = rng.choice([["month", "day"], ["doy"]]) if rng.random() < 0.3 else (["doy"] if date_kind == "doy" else ["month", "day"])
-        end = [ey] + ed + TIME_KINDS[:max(ntime, rng.choice([0, ntime, 4]))]
+        end = [ey] + ed + (TIME_KINDS[:3] + [subsec] if subsec else TIME_KINDS[:max(ntime, rng.choice([0, ntime, 4]))])
     elif end_kind == "subday":
         end = TIME_KINDS[:rng.randint(1, 4)]
         if rng.random() < 0.15:
@@ -649,6 +683,14 @@ def gen_case(rng, stream):
             "unambiguous": unamb and not special_lit and not any(t[0] == "S" for t in toks)}
     if special_lit and any(c in "([?|" for t in toks if t[0] == "L" for c in t[1]):
         case["format_only"] = True                    # regex-active literal: outside the matcher fragment
+    if rng.random() < 0.12:
+        case["single_time"] = True              # get_filename(t): one datetime, end = start
+        case["e"] = case["s"]
+    fields = {t[1] for t in toks if t[0] in "TE"}
+    if (fields - FILLABLE) and all(u in fill for u in users) and us(s) <= case["e"] \
+            and not any(t[0] == "S" for t in toks) and not special_lit:
+        # get_filename cannot fill deci/centi/microsecond: the harness writes the name itself
+        case["rendered"] = instantiate(toks, s, from_us(case["e"]), fill)[0]
     if wild and rng.random() < 0.1:
         t2 = [list(t) for t in toks]
         t2.insert(rng.randint(1, len(t2)), ["U", rng.choice(["zzz", "sat", "unknown_1"])])
@@ -685,7 +727,6 @@ def mutate_names(rng, case, name):
     if toks[-1][0] == "L":
         c = name[-1]
         out.append((name[:-1] + ("q" if c != "q" else "r"), True))
-    out.append((name + "\n", False))
     if fixed_only:
         out.append((name[:-1], True))
         out.append((name + "0", True))
@@ -748,7 +789,8 @@ def check_oracle(ck, case, real):
         viol(f"name-mismatch: get_filename gave {real['fmt']}, expected {exp['fmt']}" if exp["fmt"][0] == "ok" and real["fmt"][0] == "ok"
              else f"error-class: get_filename gave {real['fmt']}, expected {exp['fmt']}")
         return False
-    if real.get("fmt", ("err",))[0] != "ok" or not real["names"] or case.get("tpl2") or case.get("format_only"):
+    if (real.get("fmt", ("err",))[0] != "ok" and not case.get("rendered")) or not real["names"] or case.get("tpl2") \
+            or case.get("format_only"):
         return False
     r0 = real["names"][0]
     nontrivial = False
@@ -757,8 +799,8 @@ def check_oracle(ck, case, real):
         if r0["parse"] != ("ok", want):
             viol(f"caps-mismatch: parse_filename({r0['name']!r}) gave {r0['parse']}, expected {want}")
     if "info_err" in exp:
-        if r0["info"] != ("err", exp["info_err"]):
-            viol(f"error-class: get_info gave {r0['info']}, expected error {exp['info_err']}")
+        if r0["info"][0] != "err":
+            viol(f"error-class: get_info gave {r0['info']}, expected an error")
     if r0["info"][0] == "ok":
         _, a, b, attrs = r0["info"]
         if "start" in exp:
@@ -808,14 +850,33 @@ def check_oracle(ck, case, real):
     return nontrivial
 
 
+def canon(r):
+    """Outside the claim only 'both reject or both accept with equal result' is required: the exception class
+    counts only for the errors the property names (ValueError for a name that does not match the template)."""
+    out = dict(r)
+    p, i = r.get("parse"), r.get("info")
+    if p and p[0] == "err" and p[1] != "valueError":
+        out["parse"] = ("err", "reject")
+    if i and i[0] == "err" and not (i[1] == "valueError" and p == ("err", "valueError")):
+        out["info"] = ("err", "reject")
+    return out
+
+
+def canon_fmt(f):
+    if f[0] == "err" and f[1] not in ("unknownPlaceholder", "unfilledPlaceholder"):
+        return ("err", "reject")
+    return f
+
+
 def run_batch(ck, cases, use_model=True):
     reals = []
     for case in cases:
         real = run_real(case)
         # derive mutated names from the generated one (needs the real/expected name)
-        if real.get("fmt", ("err",))[0] == "ok" and not case.get("tpl2") and not case.get("format_only") and case.get("_mutate"):
+        base = real["fmt"][1] if real.get("fmt", ("err",))[0] == "ok" else case.get("rendered")
+        if base and "ctor" not in real and not case.get("tpl2") and not case.get("format_only") and case.get("_mutate"):
             rng = case.pop("_mutate")
-            muts = mutate_names(rng, case, real["fmt"][1])
+            muts = mutate_names(rng, case, base)
             case["names"] = list(case.get("names", [])) + [m for m, _ in muts]
             case["_definitely_bad"] = [m for m, b in muts if b]
             real = run_real(case)
@@ -837,16 +898,24 @@ def run_batch(ck, cases, use_model=True):
         ck.case(key=(tpl, case["s"], case["e"]) if nontriv else None, kind=kind,
                 sample={"template": tpl, "s": str(from_us(case["s"])), "e": str(from_us(case["e"])), "fill": case["fill"],
                         "name": real.get("fmt", ("", ""))[1]})
+        if case.get("rendered"):
+            ck.count("feature/harness-rendered-subsecond-name")
+        if case.get("single_time"):
+            ck.count("feature/get_filename(single datetime)")
+        E_ = {t[1] for t in case["toks"] if t[0] == "E"}
+        if E_ and E_ <= set(TIME_KINDS) and "hour" not in E_:
+            ck.count("feature/sub-day end without end_hour")
         if not use_model or "ctor" in real:
             continue
         model = parse_model(out[a:a + n], case, names)
         if "bad" in model:
             ck.disagree(f"driver rejected the case: {model['bad']}", slim)
             continue
-        if model["fmt"] != real["fmt"]:
+        if canon_fmt(model["fmt"]) != canon_fmt(real["fmt"]):
             ck.disagree(f"get_filename: model {model['fmt']} vs code {real['fmt']}", slim)
             continue
         for rm, rr in zip(model["names"], real["names"]):
+            rm, rr = canon(rm), canon(rr)
             if rm.get("parse") != rr.get("parse"):
                 ck.disagree(f"parse_filename({rr['name']!r}): model {rm.get('parse')} vs code {rr.get('parse')}", dict(slim, names=[rr["name"]]))
             if rm.get("info") != rr.get("info"):
